@@ -4,7 +4,7 @@ quick checks of its property (plus the related ones), undo the change, and recor
 Never run while other checks are running: /repo is modified for the duration of each run."""
 import json, os, subprocess, sys
 SEEDED = "/verif/seeded"
-EXTRA = {"C01": ["C09"], "C04": ["C09"], "C18": ["C16", "C08", "C09"], "C20": ["C09"], "C17": ["C19", "C18", "C14", "C03"], "C03": ["C14", "C02", "C19", "C01", "C06"], "C07": ["C08"], "C11": ["C10"],
+EXTRA = {"C01": ["C09"], "C04": ["C09"], "C18": ["C16", "C08", "C09", "C11"], "C20": ["C09", "C19"], "C17": ["C19", "C18", "C14", "C03"], "C03": ["C14", "C02", "C19", "C01", "C06"], "C07": ["C08"], "C11": ["C10"],
          "C15": ["C13"], "C06": ["C16", "C02"], "C05": ["C16", "C09"], "C13": ["C15"], "C14": ["C03"]}
 
 
